@@ -1286,10 +1286,72 @@ theorem stackDs_eq [Inhabited α] (nan : α) (datasets : List (Ds α)) (axis : O
 theorem concatenateDs_eq (nan : α) (datasets : List (Ds α)) (axis : DimKey) :
     concatenateDs nan datasets axis =
       (datasets.foldlM catChk none >>= fun variables =>
+        firstAxisName datasets axis >>= fun name =>
           match variables with
           | none => .error .type
           | some vars =>
-            vars.foldlM (joinStep (fun arrays => concatenate nan arrays axis false false) datasets) {}) := rfl
+            vars.foldlM (joinStep (fun arrays => concatenate nan arrays (.name name) false false) datasets) {}) := rfl
+
+theorem dsAxisPos_lt {axes : List Axis} {k : DimKey} {pos : Nat} (h : axisPos axes k = .ok pos) :
+    pos < axes.length := by
+  unfold axisPos at h
+  cases k with
+  | name s =>
+    simp only at h
+    split at h
+    · cases h; assumption
+    · cases h
+  | pos i =>
+    simp only at h
+    by_cases hi : i < 0
+    · simp only [hi, if_true] at h
+      split at h
+      · cases h
+      · rename_i hc
+        cases h
+        simp only [Bool.or_eq_true, decide_eq_true_eq, not_or] at hc
+        omega
+    · simp only [hi, if_false] at h
+      split at h
+      · cases h
+      · rename_i hc
+        cases h
+        simp only [Bool.or_eq_true, decide_eq_true_eq, not_or] at hc
+        omega
+
+/-- `ds.axes[axis].name` is a dimension of the Dataset -/
+theorem dsAxisName_mem (ds : Ds α) (axis : DimKey) (name : String) (h : dsAxisName ds axis = .ok name) :
+    name ∈ ds.dims := by
+  unfold dsAxisName at h
+  cases hp : axisPos ds.axes axis with
+  | error e => simp [hp, bind, Except.bind] at h
+  | ok p =>
+    simp only [hp, bind, Except.bind, pure, Except.pure, Except.ok.injEq] at h
+    have hlt : p < ds.dims.length := by
+      have := dsAxisPos_lt hp
+      simpa [Ds.dims] using this
+    rw [← h, List.getD_eq_getElem?_getD, List.getElem?_eq_getElem hlt]
+    exact List.getElem_mem hlt
+
+/-- a dimension given by name is itself -/
+theorem dsAxisName_name (ds : Ds α) (s : String) (hs : s ∈ ds.dims) : dsAxisName ds (.name s) = .ok s := by
+  have hlt : ds.dims.idxOf s < ds.dims.length := List.idxOf_lt_length_iff.2 hs
+  have hlt' : (ds.axes.map (·.name)).idxOf s < ds.axes.length := by simpa [Ds.dims] using hlt
+  unfold dsAxisName axisPos
+  simp only [hlt', if_true, bind, Except.bind, pure, Except.pure, Except.ok.injEq]
+  show ds.dims.getD (ds.dims.idxOf s) "" = s
+  rw [List.getD_eq_getElem?_getD, List.getElem?_eq_getElem hlt]
+  exact List.getElem_idxOf hlt
+
+theorem dsAxisName_name_inv (ds : Ds α) (s name : String) (h : dsAxisName ds (.name s) = .ok name) : name = s := by
+  by_cases hs : s ∈ ds.dims
+  · rw [dsAxisName_name ds s hs] at h
+    exact (Except.ok.inj h).symm
+  · have hp : ¬ (ds.axes.map (·.name)).idxOf s < ds.axes.length := by
+      intro hlt
+      exact hs (List.idxOf_lt_length_iff.1 (by simpa [Ds.dims] using hlt))
+    unfold dsAxisName axisPos at h
+    simp [hp, bind, Except.bind] at h
 
 theorem sameKeys_perm {a b : List String} (h : sameKeys a b = true) : a.Perm b := by
   unfold sameKeys at h
